@@ -137,6 +137,8 @@ class DispDouble:
         r.ev("d-exit-start", self.name, et.__name__ if et else None)
         try:
             mode = self.spec["exit"]
+            if self.spec.get("signals") and not r.disposed.done():
+                r.disposed.set_result(None)  # tasks waiting for this resource to be closed may end
             if mode.startswith("susp"):
                 await r.w.pause(f"{self.name}.exit")
             if mode.endswith("raise") or mode.endswith("raise_base"):
@@ -198,6 +200,11 @@ class Run:
         self.spawn_errors: list = []
         self.spawn_refused: list = []
         self.prebuilt: dict[int, dict] = {}
+        from haiway.utils.queue import AsyncQueue
+
+        self.queue: AsyncQueue = AsyncQueue()
+        self.queue_seen: list = []
+        self.disposed: asyncio.Future = self.w.loop.create_future()
         self.cancel_phases: list[tuple] = []
         self.cancel_in_cleanup: list[bool] = []
         self.pending_at_cancel: list[list[str]] = []
@@ -346,6 +353,11 @@ class Run:
                 await self.run_block(b["child"], env, True, owner if b["kind"] != "ascope" else bid)
                 self.phase[:] = ["body", bid]
             ending = b.get("ending", "return")
+            if any(sp_.get("kind") == "queue" for sp_ in b.get("spawns", [])):
+                # hand an element to the (suspended) consumer in the very step in which the body ends
+                self.queue.enqueue(1)
+                if ending == "return":
+                    self.queue.finish()
             if ending == "raise":
                 self.raised[bid] = BodyErr(f"b{bid}")
                 raise self.raised[bid]
@@ -390,6 +402,14 @@ class Run:
                         self.all_spawned.append(g)
                     except BaseException as exc:  # noqa: BLE001
                         self.spawn_errors.append((g["name"], type(exc).__name__))
+                if sp["kind"] == "wait_dispose":
+                    # a task that only ends once a disposable of its scope has been closed
+                    await asyncio.shield(self.disposed)
+                if sp["kind"] == "queue":
+                    # a consumer of a haiway AsyncQueue: it ends with the queue, or by cancellation
+                    # (the element handed over right before the cancellation is not its concern)
+                    async for item in self.queue:
+                        self.queue_seen.append(item)
                 for k in range(sp.get("pauses", 0)):
                     await self.w.pause(f"{name}.p{k}")
                 if sp["kind"] == "raise":
